@@ -296,6 +296,26 @@ theorem dc_rot_hash_ecc (c : CryptoOps) (hl : CryptoLaws c) (cv : Spec.Curve) (k
     calculateHash c dc = .ok (Spec.rotkh c .certBlock21 ks) :=
   rot_hash_ecc c hl cv ks h1 h4 hk used hu dc hcls hm hp
 
+/-- The key material that enters the RoT hash has FIXED width: X and Y on `coordSize` bytes each, whatever their value — a
+    coordinate with leading zero bytes is zero-extended, never shortened (`dc_rot_hash_ecc` above quantifies over all `x y`,
+    short ones included; this makes the width explicit). -/
+theorem dc_rot_key_fixed_width (cv : Spec.Curve) (x y : Nat) :
+    (dcKeyBytes (.ecc cv x y)).length = 2 * cv.coordSize ∧ dcKeyBytes (.ecc cv x y) = (Spec.Key.ecc cv x y).material ∧
+    (dcKeyBytes (.ecc cv x y)).take cv.coordSize = beEnc cv.coordSize x ∧
+    (dcKeyBytes (.ecc cv x y)).drop cv.coordSize = beEnc cv.coordSize y := by
+  refine ⟨by rw [dcKeyBytes_ecc_length]; omega, rfl, ?_, ?_⟩
+  · simp only [dcKeyBytes]; rw [List.take_left' (beEnc_length' _ _)]
+  · simp only [dcKeyBytes]; rw [List.drop_left' (beEnc_length' _ _)]
+
+/-- a short coordinate is written with its leading zero bytes, the value is recovered from the fixed-width field -/
+theorem dc_rot_key_short_coordinate (n x k : Nat) (hk : k ≤ n) (hx : x < 256 ^ (n - k)) :
+    (beEnc n x).length = n ∧ beDec (beEnc n x) = x ∧ (beEnc n x).take k = zeros k := by
+  have hlt : x < 256 ^ n := Nat.lt_of_lt_of_le hx (Nat.pow_le_pow_right (by decide) (Nat.sub_le n k))
+  exact ⟨beEnc_length' n x, by rw [beDec_beEnc_mod, Nat.mod_eq_of_lt hlt], beEnc_leading_zeros n x k hk hx⟩
+
+example : (dcKeyBytes (.ecc .p256 1 (2 ^ 255))).length = 64 ∧ (dcKeyBytes (.ecc .p256 1 (2 ^ 255))).take 31 = zeros 31 ∧
+    ((dcKeyBytes (.ecc .p256 1 (2 ^ 255))).drop 31).take 2 = [1, 128] := by decide +kernel
+
 /-- EdgeLock: SHA-256 of the SRK table the credential embeds — the AHAB value whenever that table is the documented
     one for the keys (the table itself is C03/C06's subject; the harness compares it with `Rot(...)`). -/
 theorem dc_rot_hash_ele (c : CryptoOps) (ks : List (Spec.Key × Bool)) (dc : DC) (used cnt : Nat) (hcls : dc.cls = .ele)
